@@ -32,7 +32,7 @@ func zzHintBitUnpackRef(y []byte) (bool, VecK) {
 
 // every (omega+k)-byte string encoding at most 3 hints in total
 //
-//zz: prop=C04 tier=quick backend=bv maxpaths=60000
+//zz: prop=C04 also=C02 tier=quick backend=bv maxpaths=60000
 func ZZ_C04_UnpackHint_vs_FIPS204_mode2() { zzUnpackHintCheck(1) }
 
 //zz: prop=C04 tier=thorough backend=bv maxpaths=200000
